@@ -108,6 +108,8 @@ SpellOf(c, i) ==
   ELSE IF c = "when" THEN <<123, 37, 32, 119, 104, 101, 110, 32, 49, 32, 37, 125>>
   ELSE IF c = "tag" THEN <<123, 37, 32, 97, 115, 115, 105, 103, 110, 32, 122, 32, 61, 32, 49, 32, 37, 125>>
   ELSE IF c = "obj" THEN <<123, 123, 32, 99, 32, 125, 125>>
+  \* (an object that is no valid expression: inside a comment or a raw block it is just text)
+  ELSE IF c = "badobj" THEN <<123, 123, 32, 112, 32, 42, 32, 50, 32, 125, 125>>
   ELSE IF c = "endif" THEN <<123, 37, 32, 101, 110, 100, 105, 102, 32, 37, 125>>
   ELSE IF c = "endunless" THEN <<123, 37, 32, 101, 110, 100, 117, 110, 108, 101, 115, 115, 32, 37, 125>>
   ELSE IF c = "endcase" THEN <<123, 37, 32, 101, 110, 100, 99, 97, 115, 101, 32, 37, 125>>
